@@ -15,17 +15,18 @@ PROP = "C02"
 def gen_case(seed, k, cap):
     rng = rng_for(seed, PROP, "case", k)
     ts = ["PartialEq"]
-    if rng.random() < 0.5:
+    if rng.random() < 0.35:
         ts.append("Eq")
     extra = rng.sample(["Debug", "Clone", "Hash", "PartialOrd", "Default"], rng.randint(0, 2))
     if "Eq" in ts and "PartialOrd" in extra and rng.random() < 0.5:
         extra.append("Ord")
     ts = ts + extra
     rng.shuffle(ts)
-    td = G.random_type(rng, ts, G.Opts(p_attr=0.8, max_fields=4, max_variants=4, bounds=True))
+    td = G.random_type(rng, ts, G.Opts(p_attr=0.8, max_fields=4, max_variants=4, bounds=True, p_partial=0.7, p_repr=0.3))
     text = S.render(td, rng_for(seed, PROP, "spell", k), extras=False)
     vals = S.values(td, cap, rng)
-    drive = "        %sdrive_eq(\"c%d\", %d, &mk);" % (S.RT, k, len(vals))
+    drive = ("        %sdrive_eq(\"c%d\", %d, &mk);\n        %sdrive_eq_self(\"c%d\", %d, &mk);"
+             % (S.RT, k, len(vals), S.RT, k, len(vals)))
     return BH.Case("c%d" % k, td, text, vals, drive=drive)
 
 
@@ -80,6 +81,13 @@ def judge(chk, c, obs, dropped):
     n = len(c.vals)
     mev = 0
     for op, i, j, res, ev in o.recs:
+        if op == "eqself":
+            want = expected_eq(td, c.vals[i], c.vals[i])
+            if (res[0][0] == "1") != want or res[0][1] == res[0][0]:
+                chk.violation("eq-self|%s" % td.kind, "a value compared with itself (same object) gives ==:%s !=:%s, oracle says == is %s\n"
+                              "a = %s\n%s" % (res[0][0], res[0][1], want, c.vals[i], c.text), files)
+                return
+            continue
         table[(op, i, j)] = res[0] == "1"
         ok, k = BH.method_events_ok(ev)
         mev += k
